@@ -440,20 +440,33 @@ def _is_one(a):
 
 
 class DType:
-    def __init__(self, kind):
-        self.kind = kind   # 'c' complex, 'f' float, 'i' int, 'b' bool
+    """kind: 'c' complex, 'f' float, 'i' int, 'b' bool ; bits: 64/128 (complex), 32/64 (float) or None = unknown width"""
+
+    def __init__(self, kind, bits=None):
+        self.kind, self.bits = kind, bits
 
     def __eq__(self, o):
-        return isinstance(o, DType) and o.kind == self.kind or o is self
+        if o is self:
+            return True
+        if not isinstance(o, DType):
+            try:
+                o = as_dtype(o)
+            except Exception:
+                return False
+        if o.kind != self.kind:
+            return False
+        if self.bits is None or o.bits is None:
+            return self.bits is None and o.bits is None and self is o
+        return self.bits == o.bits
 
     def __ne__(self, o):
         return not self.__eq__(o)
 
     def __hash__(self):
-        return hash(self.kind)
+        return hash((self.kind, self.bits))
 
     def __repr__(self):
-        return "dtype(%s)" % self.kind
+        return "dtype(%s%s)" % (self.kind, self.bits or "?")
 
 
 CDT = DType("c")
@@ -813,11 +826,15 @@ def as_dtype(d):
     if isinstance(d, DType):
         return d
     import numpy as _np
+    if isinstance(d, str) and d in ("complex64", "complex128", "float32", "float64"):
+        return DType(d[0], int("".join(ch for ch in d if ch.isdigit())))
     try:
-        k = _np.dtype(d).kind
+        dt = _np.dtype(d)
     except Exception:
         return CDT
-    return {"c": CDT, "f": FDT, "i": IDT, "u": IDT, "b": BDT}.get(k, CDT)
+    if dt.kind in "cf":
+        return DType(dt.kind, dt.itemsize * 8)
+    return {"i": IDT, "u": IDT, "b": BDT}.get(dt.kind, CDT)
 
 
 def prod(shape, dtype=None):
@@ -1622,6 +1639,8 @@ class _Numpy(_NS):
             return a.kind == "c"
         raise Unsupported("issubdtype(%r, %r)" % (a, b))
 
+    fft = None   # set below
+
 
 NP = _Numpy()
 
@@ -1798,6 +1817,30 @@ def _unused(bnd, term, eqs):
     return True
 
 
+def _rotation_rule(bnd, binders, eqs, ap):
+    """v in [0, d),  r := (v + c) mod d,  r == e   <=>   v == (e - c) mod d  and  0 <= e < d
+    (inverse of a cyclic rotation: numpy roll / fftshift / ifftshift index maps)"""
+    if bnd.kind != "range" or not z3.is_true(z3.simplify(ap(_lift(bnd.lo)) == 0)):
+        return None, None
+    d = z3.simplify(ap(_lift(bnd.hi)))
+    for D in binders:
+        if D.kind != "def":
+            continue
+        if not z3.simplify(ap(D.d)).eq(d):
+            continue
+        a = ap(D.a)
+        c = z3.simplify(a - bnd.v)
+        if _contains(c, bnd.v):
+            continue
+        for l, r in eqs:
+            l2, r2 = ap(l), ap(r)
+            e = _solve_for(l2, r2, D.r)          # isolate the remainder (unit coefficient), e.g.  r + off == t
+            if e is not None and not _contains(e, bnd.v) and not _contains(e, D.q) and not _contains(e, D.r):
+                q2, r2_ = core._divmod_global(z3.simplify(e - c), d)
+                return r2_, z3.And(e >= 0, e < d)
+    return None, None
+
+
 def partial_eliminate(term, eqs):
     """apply the one-point rule to as many bound variables as possible; returns (remaining vars, guard Bool, coef C)
     with the index equalities folded into the guard"""
@@ -1805,6 +1848,7 @@ def partial_eliminate(term, eqs):
     remaining = []
     sigs = {}
     count_factor, dropped = [], []
+    rot_guards = []
     ap = lambda e: z3.substitute(e, *sub) if sub else e
     eqs = [(_lift(a), _lift(b)) for a, b in eqs]
     n_given = len(eqs)
@@ -1824,11 +1868,19 @@ def partial_eliminate(term, eqs):
             sub += [(bnd.q, q2), (bnd.r, r2)]
             continue
         sol = None
+        pos = list(term.binders).index(bnd)
+        later = []
+        for bb in list(term.binders)[pos + 1:]:
+            later += [bb.q, bb.r] if bb.kind == "def" else [bb.v]
         for l, r in eqs:
             cand = _solve_for(ap(l), ap(r), bnd.v)
-            if cand is not None and not any(_contains(cand, v) for v in remaining):
+            if cand is not None and not any(_contains(cand, v) for v in remaining + later):
                 sol = cand
                 break
+        if sol is None:
+            sol, extra_g = _rotation_rule(bnd, term.binders, eqs, ap)
+            if sol is not None:
+                rot_guards.append(extra_g)
         if sol is None:
             lo_, hi_ = ap(_lift(bnd.lo)), ap(_lift(bnd.hi))
             if _provable(hi_ == lo_ + 1):
@@ -1846,7 +1898,7 @@ def partial_eliminate(term, eqs):
             sub.append((bnd.v, sol))
     dr = [b.range_cond() for b in dropped]
     guard = z3.And(*([ap(g) for g in term.guard if not any(g.eq(d) for d in dr)] + [ap(b.range_cond()) for b in term.binders if b not in dropped]
-                     + [ap(l) == ap(r) for l, r in eqs[:n_given]]))
+                     + [ap(l) == ap(r) for l, r in eqs[:n_given]] + [ap(g) for g in rot_guards]))
     coef = C(ap(term.coef.re), ap(term.coef.im))
     for cf in count_factor:
         coef = coef * C(cf)
@@ -2238,3 +2290,114 @@ def _vectorized(f):
         return SArr(shape, el, arrs[-1].dtype)
     wrapper.__wrapped__ = f
     return wrapper
+
+
+# ----------------------------------------------------------------------------- numpy.fft contracts
+def twiddle(n, m, inverse=False):
+    """exp(-+ 2 pi i m / n) as an uninterpreted function of (n, m mod n): periodicity in m is built in"""
+    q, r = core._divmod(S(m), S(n))
+    args = (_lift(n), r)
+    fre = z3.Function("W.re", z3.IntSort(), z3.IntSort(), z3.RealSort())(*args)
+    fim = z3.Function("W.im", z3.IntSort(), z3.IntSort(), z3.RealSort())(*args)
+    return C(fre, -fim if inverse else fim)
+
+
+def _fft_axes(a, axes):
+    if axes is None:
+        return list(range(a.ndim))
+    out = []
+    for x in axes:
+        x = int(x)
+        if x < -a.ndim or x >= a.ndim:
+            raise SValueError("axis out of bounds")
+        out.append(x % a.ndim)
+    return out
+
+
+def _dft(a, s=None, axes=None, norm=None, inverse=False):
+    if s is not None:
+        raise Unsupported("fftn(s=...) (uncentred transform with an output shape)")
+    ax = _fft_axes(a, axes)
+    if len(set(ax)) != len(ax):
+        raise Unsupported("repeated fft axes")
+    snap = a._snapshot()
+    shape = a.shape
+    if norm == "ortho":
+        scale = 1
+        for d in ax:
+            scale = scale / core.sym_sqrt(S(shape[d]))
+    elif norm is None or norm == "backward":
+        scale = 1
+        if inverse:
+            for d in ax:
+                scale = scale / S(shape[d])
+    else:
+        raise Unsupported("fft norm %r" % (norm,))
+    sc = C.of(scale)
+
+    def el(k):
+        c = cur()
+        idx = list(k)
+        binders = []
+        w = sc
+        saved = list(c.binders)
+        try:
+            for d in ax:
+                j = fresh_int("j")
+                b = Binder(j, 0, shape[d])
+                binders.append(b)
+                c.binders.append(b)          # the twiddle's quotient/remainder become functionally defined bound variables
+                idx[d] = j
+                w = w * twiddle(shape[d], Sym(j) * Sym(k[d]), inverse)
+            v = snap(tuple(idx))
+            defs = [x for x in c.binders if x not in saved and x not in binders]
+            allb = []
+            for b in binders:
+                allb.append(b)
+            allb += defs
+        finally:
+            c.binders[:] = saved
+        if not v.const.is_zero():
+            raise Unsupported("fft of a non-homogeneous value")
+        return LF(C0, [Term(tuple(allb) + t.binders, tuple(x.range_cond() for x in allb) + t.guard, t.coef * w, t.atom, t.idx, t.conj)
+                       for t in v.terms])
+    # numpy >= 2.0 (pocketfft): a complex input keeps its width; a real input of width b gives complex 2b
+    # (assumed contract of the installed numpy, exercised by the native C05 probe)
+    odt = a.dtype if a.dtype.kind == "c" else DType("c", None if a.dtype.bits is None else 2 * a.dtype.bits)
+    return SArr(shape, el, odt)
+
+
+def _shift(a, axes, sign):
+    ax = _fft_axes(a, axes) if axes is not None else list(range(a.ndim))
+    snap = a._snapshot()
+    shape = a.shape
+
+    def el(k):
+        kk = list(k)
+        for d in ax:
+            kk[d] = _lift(core.sym_mod(Sym(k[d]) + sign * (S(shape[d]) // 2), shape[d]))
+        return snap(tuple(kk))
+    return SArr(shape, el, a.dtype)
+
+
+class _FFT(_NS):
+    _name = "np.fft"
+
+    @staticmethod
+    def fftn(a, s=None, axes=None, norm=None):
+        return _dft(a, s, axes, norm, False)
+
+    @staticmethod
+    def ifftn(a, s=None, axes=None, norm=None):
+        return _dft(a, s, axes, norm, True)
+
+    @staticmethod
+    def fftshift(a, axes=None):
+        return _shift(a, axes, -1)       # out[k] = in[(k - n//2) mod n]
+
+    @staticmethod
+    def ifftshift(a, axes=None):
+        return _shift(a, axes, +1)       # out[k] = in[(k + n//2) mod n]
+
+
+_Numpy.fft = _FFT()
